@@ -264,6 +264,10 @@ class InjectedFault(OSError):
     pass
 
 
+class InjectedNonOSFault(MemoryError):
+    """A failure during a write that is NOT an OSError (out of memory, an encoding error, an interrupt)."""
+
+
 class _FaultyFile:
     def __init__(self, real, mode, owner):
         self._f, self._mode, self._o = real, mode, owner
@@ -276,11 +280,13 @@ class _FaultyFile:
         if self._mode == "before_write":
             self._o.fired = True
             raise InjectedFault(28, "injected ENOSPC before first write")
-        if self._mode == "mid_write":
+        if self._mode in ("mid_write", "mid_write_non_os_error"):
             half = data[: max(1, len(data) // 2)]
             self._f.write(half)
             self._f.flush()
             self._o.fired = True
+            if self._mode == "mid_write_non_os_error":
+                raise InjectedNonOSFault("injected failure mid write that is not an OSError")
             raise InjectedFault(28, "injected ENOSPC mid write")
         return self._f.write(data)
 
